@@ -164,10 +164,10 @@ VA:
 							}
 						}
 						if !present {
-							resp <- VarAns{ANS_OK, guessed}
 							verifPoint("assigner.notify")
 							useditem <- UsageNotify{TR_PROC, rproc, C_REGSIZE, S_NIL, i + 1}
 							busylist[rproc] = append(busylist[rproc], guessed)
+							resp <- VarAns{ANS_OK, guessed}
 							created = true
 							break
 						}
@@ -193,10 +193,10 @@ VA:
 							}
 						}
 						if !present {
-							resp <- VarAns{ANS_OK, guessed}
 							verifPoint("assigner.notify")
 							useditem <- UsageNotify{TR_PROC, rproc, C_REGSIZE, S_NIL, i + 1}
 							busylist[rproc] = append(busylist[rproc], guessed)
+							resp <- VarAns{ANS_OK, guessed}
 							created = true
 							break
 						}
@@ -227,10 +227,10 @@ VA:
 							}
 						}
 						if !present {
-							resp <- VarAns{ANS_OK, guessed}
 							verifPoint("assigner.notify")
 							useditem <- UsageNotify{TR_PROC, rproc, C_RAMSIZE, S_NIL, i + 1}
 							busylist[rproc] = append(busylist[rproc], guessed)
+							resp <- VarAns{ANS_OK, guessed}
 							created = true
 							break
 						}
@@ -257,10 +257,10 @@ VA:
 							}
 						}
 						if !present {
-							resp <- VarAns{ANS_OK, guessed}
 							verifPoint("assigner.notify")
 							useditem <- UsageNotify{TR_PROC, rproc, C_RAMSIZE, S_NIL, i + 1}
 							busylist[rproc] = append(busylist[rproc], guessed)
+							resp <- VarAns{ANS_OK, guessed}
 							created = true
 							break
 						}
@@ -316,13 +316,13 @@ VA:
 								}
 							}
 							if !present {
-								resp <- VarAns{ANS_OK, guessed}
 								// Only in the IO is inittializated its use has to be notified
 								if rcell.Global_id != 0 {
 									verifPoint("assigner.notify")
 									useditem <- UsageNotify{TR_PROC, rproc, C_INPUT, S_NIL, rcell.Global_id}
 								}
 								busylist[rproc] = append(busylist[rproc], guessed)
+								resp <- VarAns{ANS_OK, guessed}
 								break
 							}
 						}
@@ -382,13 +382,13 @@ VA:
 								}
 							}
 							if !present {
-								resp <- VarAns{ANS_OK, guessed}
 								// Only in the IO is inittializated its use has to be notified
 								if rcell.Global_id != 0 {
 									verifPoint("assigner.notify")
 									useditem <- UsageNotify{TR_PROC, rproc, C_OUTPUT, S_NIL, rcell.Global_id}
 								}
 								busylist[rproc] = append(busylist[rproc], guessed)
+								resp <- VarAns{ANS_OK, guessed}
 								break
 							}
 						}
@@ -440,12 +440,12 @@ VA:
 								}
 							}
 							if !present {
-								resp <- VarAns{ANS_OK, guessed}
 								verifPoint("assigner.notify")
 								useditem <- UsageNotify{TR_PROC, rproc, C_SHAREDOBJECT, "channel:", I_NIL}
 								busylist[rproc] = append(busylist[rproc], guessed)
 								verifPoint("assigner.notify")
 								useditem <- UsageNotify{TR_CHAN, guessed_global_id, C_CONNECTED, S_NIL, rproc}
+								resp <- VarAns{ANS_OK, guessed}
 								created = true
 								break
 							}
@@ -497,12 +497,12 @@ VA:
 								}
 							}
 							if !present {
-								resp <- VarAns{ANS_OK, guessed}
 								verifPoint("assigner.notify")
 								useditem <- UsageNotify{TR_PROC, rproc, C_SHAREDOBJECT, "channel:", I_NIL}
 								busylist[rproc] = append(busylist[rproc], guessed)
 								verifPoint("assigner.notify")
 								useditem <- UsageNotify{TR_CHAN, guessed_global_id, C_CONNECTED, S_NIL, rproc}
+								resp <- VarAns{ANS_OK, guessed}
 								created = true
 								break
 							}
@@ -536,13 +536,13 @@ VA:
 							}
 						}
 						if !present {
-							resp <- VarAns{ANS_OK, guessed}
 							verifPoint("assigner.notify")
 							useditem <- UsageNotify{TR_PROC, rproc, C_SHAREDOBJECT, "channel:", I_NIL}
 							busylist[rproc] = append(busylist[rproc], guessed)
 							busychan[guessed_global_id].Connected = append(busychan[guessed_global_id].Connected, rproc)
 							verifPoint("assigner.notify")
 							useditem <- UsageNotify{TR_CHAN, guessed_global_id, C_CONNECTED, S_NIL, rproc}
+							resp <- VarAns{ANS_OK, guessed}
 							created = true
 							break
 						}
@@ -568,13 +568,13 @@ VA:
 							}
 						}
 						if !present {
-							resp <- VarAns{ANS_OK, guessed}
 							verifPoint("assigner.notify")
 							useditem <- UsageNotify{TR_PROC, rproc, C_SHAREDOBJECT, "channel:", I_NIL}
 							busylist[rproc] = append(busylist[rproc], guessed)
 							busychan[guessed_global_id].Connected = append(busychan[guessed_global_id].Connected, rproc)
 							verifPoint("assigner.notify")
 							useditem <- UsageNotify{TR_CHAN, guessed_global_id, C_CONNECTED, S_NIL, rproc}
+							resp <- VarAns{ANS_OK, guessed}
 							created = true
 							break
 						}
